@@ -38,6 +38,7 @@ func genCase(t *rapid.T, o verifnet.GenOpts, allowLegacy bool, maxPerturb int) x
 	x.Perturb = genPerturb(t, maxPerturb)
 	x.HashAlg = rapid.SampledFrom([]string{"", "crc32c", "xxhash64", "none"}).Draw(t, "hash")
 	x.SlotFrac = rapid.SampledFrom([]float64{0, 0, 0, 0.25, 0.5, 0.75, 1}).Draw(t, "small_slot_frac")
+	genThresholds(t, &x)
 	return x
 }
 
